@@ -6,15 +6,16 @@ from common import CONTRACTS, EVIDENCE, ROOT, VERUS_DIR, dump_json
 
 GLOBAL_TRUSTED = [
     "kani-compiler 0.68 (MIR -> goto translation), CBMC 6.11 + CaDiCaL",
-    "Verus 0.2026.09.13 + Z3 (lemmas and the extracted LRU loop)",
-    "rustc / cargo; std, hashbrown, indexmap, thin-vec, boxcar, smallvec as compiled (executed symbolically, trusted only where stubbed)",
+    "Verus 0.2026.09.13 + Z3 (lemmas and the extracted functions of eviction/lru.rs)",
+    "rustc / cargo; std, thin-vec, boxcar, smallvec, crossbeam as compiled (executed symbolically, trusted only where stubbed); hashbrown / indexmap / hashlink only where P4 does not apply (interned.rs, dependency_graph.rs, zalsa.rs)",
     "tools/instrument.py (anchor-based injection of cfg(kani) attributes and child modules; nothing inside a function body is edited)",
-    "cfg(kani) substitutions P1 (tracing events -> no-op), P2 (sequential sync shim: Mutex=RefCell, constant ThreadId), P3 (interned memory_usage not compiled)",
+    "cfg(kani) substitutions P1 (tracing events -> no-op), P2 (sequential sync shim: Mutex=RefCell, constant ThreadId), P3 (interned memory_usage not compiled), P4 (association-list models of IndexSet / HashSet / LinkedHashSet / hashbrown HashTable+HashMap / the page-pool map: contracts/collections.rs - that the real collections implement these documented semantics is trusted)",
 ]
 GLOBAL_ASSUMPTIONS = [
     "Kani: machine integers with overflow checks on; termination not proved; single-threaded (atomics sequential); panics are failures (panic=abort)",
     "concurrency and unwinding are outside every obligation",
-    "harness Configuration impls stand for all user configurations; macro-generated code (components/) is not verified",
+    "harness Configuration impls stand for all user configurations; macro-generated code (components/) is not verified except where an obligation runs on the expansion of the real macros (K-MAC-1)",
+    "obligations flagged `stubs` check one function against executable statements of its callees' contracts (kani::stub); which of those contracts are discharged by other obligations and which are assumed is listed in DESIGN.md 13.4",
 ]
 SCAN = [("vk::assume(", "precondition (type invariant / range) stated in the harness"),
         ("kani::assume(", "precondition"), ("kani::stub(", "stubbed function (trusted stand-in)"),
